@@ -95,6 +95,32 @@ constexpr i128 tmin() { return std::numeric_limits<U>::min(); }
 template <typename U>
 constexpr i128 tmax() { return std::numeric_limits<U>::max(); }
 
+// the iterators are also consumed the other way round: `*it++` must yield the element `*it` would
+// have yielded before the step (the iterator requirements every category shares), and both walks
+// reach the end together. limit: how many leading elements are compared (0 = all)
+template <typename R, typename Proj>
+void post_increment_check(R const &r, long long limit, std::string const &key, std::string const &ctx, Proj const &proj)
+{
+  auto a = r.begin();
+  auto b = r.begin();
+  auto const en = r.end();
+  long long k = 0;
+  while (a != en && b != en && (limit == 0 || k < limit))
+  {
+    auto const va = proj(*a);
+    auto const vb = proj(*b++);
+    if (!(va == vb))
+    {
+      fail(key + "|post-increment|element", ctx + ": element " + std::to_string(k) + " read with *it++ differs from the one read with *it");
+      return;
+    }
+    ++a;
+    ++k;
+  }
+  if ((limit == 0 || k < limit) && ((a == en) != (b == en)))
+    fail(key + "|post-increment|length", ctx + ": walking with it++ and with ++it does not end after the same number of steps (" + std::to_string(k) + ")");
+}
+
 // cap: how many leading elements are compared when the range is longer (0 = all)
 template <typename I>
 void ir_check(char const *fn, fcppt::int_range<I> const &r, i128 b, i128 e, i128 cap, std::string const &tn)
@@ -125,6 +151,7 @@ void ir_check(char const *fn, fcppt::int_range<I> const &r, i128 b, i128 e, i128
     ++k;
   }
   if (k < lim) fail(std::string(fn) + "|too-short|" + cl, tn + " [" + str(b) + "," + str(e) + "): ended after " + str(k) + " elements, expected " + str(n));
+  post_increment_check(r, static_cast<long long>(lim) + 1, std::string(fn), tn + " [" + str(b) + "," + str(e) + ")", [](auto const &v) { return static_cast<i128>(W::get(v)); });
   // size(): only when the number of elements is representable in the range's own integer type
   if (n <= tmax<U>())
   {
@@ -378,6 +405,7 @@ void enum_check(char const *fn, fcppt::enum_::range<E> const &r, i64 first, i64 
     ++k;
   }
   if (k != n) fail(std::string(fn) + "|too-short", tn + " [" + str(first) + "," + str(last) + "]: " + str(k) + " enumerators, expected " + str(n));
+  post_increment_check(r, n + 1, std::string(fn), tn + " [" + str(first) + "," + str(last) + "]", [](E const v) { return static_cast<i64>(v); });
   if (static_cast<i64>(r.size()) != n) fail(std::string(fn) + "|size", tn + " [" + str(first) + "," + str(last) + "]: size() = " + str(static_cast<i64>(r.size())) + ", expected " + str(n));
   if (static_cast<i64>(fcppt::range::size(r)) != n) fail("range::size|enum range", tn + " [" + str(first) + "," + str(last) + "]: range::size = " + str(static_cast<i64>(fcppt::range::size(r))));
 }
@@ -578,6 +606,7 @@ void spiral_case(i64 ox, i64 oy, i64 d)
   // all distinct, all inside the ball and as many as the ball has points: exactly the ball
   if (got.size() != ball.size()) fail("grid::make_spiral_range|too-short", ctx() + ": " + str(got.size()) + " positions, the ball has " + str(ball.size()));
   if (!got.empty() && (got.front().first != ox || got.front().second != oy)) fail("grid::make_spiral_range|first-not-origin", ctx());
+  post_increment_check(r, static_cast<long long>(ball.size()) + 1, "grid::make_spiral_range", ctx(), [](pos const &q) { return std::make_pair(static_cast<i64>(q.x()), static_cast<i64>(q.y())); });
 }
 void spiral_one(Ints const &c)
 {
@@ -623,6 +652,26 @@ void neighbour_case(i64 x, i64 y)
     }
   auto const fm = fcppt::container::grid::moore_neighbors(p);
   auto const fn = fcppt::container::grid::neumann_neighbors(p);
+  if constexpr (std::is_unsigned_v<T>)
+  {
+    if (x == 0 || y == 0)
+    {
+      // Reading: "no range checking is performed" - for an unsigned coordinate 0 the neighbour
+      // "0 - 1" is not a position, whatever value stands for it. Demanded (weak): what remains after
+      // the range check against the grid [0,x+2) x [0,y+2) are exactly the true neighbours with
+      // non-negative coordinates, each once (in particular never the centre itself).
+      auto const keep = [&](std::vector<std::pair<i64, i64>> &v) { v.erase(std::remove_if(v.begin(), v.end(), [](auto const &q) { return q.first < 0 || q.second < 0; }), v.end()); };
+      keep(m8);
+      keep(n4);
+      auto const inside = [&](auto const &q) { return static_cast<unsigned long long>(q.x()) <= static_cast<unsigned long long>(x + 1) && static_cast<unsigned long long>(q.y()) <= static_cast<unsigned long long>(y + 1); };
+      for (auto const &q : fm) if (inside(q)) g8.emplace_back(static_cast<i64>(q.x()), static_cast<i64>(q.y()));
+      for (auto const &q : fn) if (inside(q)) g4.emplace_back(static_cast<i64>(q.x()), static_cast<i64>(q.y()));
+      std::sort(m8.begin(), m8.end()); std::sort(n4.begin(), n4.end()); std::sort(g8.begin(), g8.end()); std::sort(g4.begin(), g4.end());
+      if (g8 != m8) fail("grid::moore_neighbors|in-range-part|unsigned-zero", "moore_neighbors(" + str(x) + "," + str(y) + ") of an unsigned position: the elements inside [0," + str(x + 2) + ")x[0," + str(y + 2) + ") are not exactly the surrounding positions with non-negative coordinates");
+      if (g4 != n4) fail("grid::neumann_neighbors|in-range-part|unsigned-zero", "neumann_neighbors(" + str(x) + "," + str(y) + ") of an unsigned position: the elements inside [0," + str(x + 2) + ")x[0," + str(y + 2) + ") are not exactly the adjacent positions with non-negative coordinates");
+      return;
+    }
+  }
   for (auto const &q : fm) g8.emplace_back(static_cast<i64>(q.x()), static_cast<i64>(q.y()));
   for (auto const &q : fn) g4.emplace_back(static_cast<i64>(q.x()), static_cast<i64>(q.y()));
   std::sort(m8.begin(), m8.end()); std::sort(n4.begin(), n4.end()); std::sort(g8.begin(), g8.end()); std::sort(g4.begin(), g4.end());
@@ -632,19 +681,19 @@ void neighbour_case(i64 x, i64 y)
 void neighbour_one(Ints const &c)
 {
   i64 const t = clampi(geti(c, 0), 0, 2);
-  // unsigned positions start at 1: "no range checking is performed", 0 - 1 is not a position
-  i64 const lo = t == 2 ? 1 : -4, hi = t == 2 ? 9 : 4;
+  // unsigned positions: at 0 only the in-range part of the result is demanded (see neighbour_case)
+  i64 const lo = t == 2 ? 0 : -4, hi = t == 2 ? 9 : 4;
   i64 const x = clampi(geti(c, 1), lo, hi), y = clampi(geti(c, 2), lo, hi);
   if (t == 0) neighbour_case<int>(x, y);
   else if (t == 1) neighbour_case<std::ptrdiff_t>(x, y);
   else neighbour_case<std::size_t>(x, y);
 }
 Reg const r_neigh{
-    "moore_neumann_neighbors", Kind::exhaustive, "a position in [-4,4]^2 (int, ptrdiff_t) or [1,9]^2 (size_t): a coordinate equal to 0 or 1",
+    "moore_neumann_neighbors", Kind::exhaustive, "a position in [-4,4]^2 (int, ptrdiff_t) or [0,9]^2 (size_t): a coordinate equal to 0 or 1",
     [] {
       for (i64 t = 0; t < 3; ++t)
-        for (i64 x = (t == 2 ? 1 : -4); x <= (t == 2 ? 9 : 4); ++x)
-          for (i64 y = (t == 2 ? 1 : -4); y <= (t == 2 ? 9 : 4); ++y)
+        for (i64 x = (t == 2 ? 0 : -4); x <= (t == 2 ? 9 : 4); ++x)
+          for (i64 y = (t == 2 ? 0 : -4); y <= (t == 2 ? 9 : 4); ++y)
           {
             cur3(t, x, y);
             neighbour_one({t, x, y});
